@@ -1,39 +1,12 @@
 /* Spec macros for src/sp/protocol/pubsub0/sub.c (C05, C15).  No code. */
 #ifndef VP_SUB_SPEC_H
 #define VP_SUB_SPEC_H
-
-/* BOUNDS of this module (grade B): a context has at most 3 topics, each at
- * most SUB_MAXTOPIC bytes (memcmp is CBMC's byte loop); message bodies are
- * unbounded and fully symbolic. */
+/* BOUNDS of this module (grade B): at most 2 contexts on a socket, a context
+ * has at most 3 topics, each at most SUB_MAXTOPIC bytes (memcmp is CBMC's byte
+ * loop); message bodies are unbounded and fully symbolic. */
 #define SUB_MAXTOPIC 8
-
-#define SUB_TOPIC_PRE(t)                                                   \
-	(__CPROVER_is_fresh((t), sizeof(struct sub0_topic)) &&                 \
-	    (t)->len <= SUB_MAXTOPIC &&                                        \
-	    ((t)->len == 0 || __CPROVER_is_fresh((t)->buf, (t)->len)))
 /* the topic list of ctx is the real nni_list (t0, t1, t2)[0..n) */
-#define SUB_TOPICS_PRE(ctx, n, t0, t1, t2)                                 \
-	((n) <= 3 && (ctx)->topics.ll_offset == 0 &&                           \
-	    ((n) < 1 || SUB_TOPIC_PRE(t0)) && ((n) < 2 || SUB_TOPIC_PRE(t1)) && \
-	    ((n) < 3 || SUB_TOPIC_PRE(t2)) &&                                  \
-	    VP_LIST3_LINKS(&(ctx)->topics.ll_head, (n), &(t0)->node, &(t1)->node, &(t2)->node))
 #define SUB_TOPICS_ARE(ctx, n, t0, t1, t2)                                 \
-	VP_LIST3_IS(&(ctx)->topics.ll_head, (n), &(t0)->node, &(t1)->node, &(t2)->node)
-
-/* ORACLE (property C05): topic t is a prefix of body[0..blen) */
-#define SUB_EQ_AT(t, body, i)                                              \
-	((i) >= (t)->len || ((const uint8_t *) (t)->buf)[(i)] == ((const uint8_t *) (body))[(i)])
-#define SUB_PREFIX(t, body, blen)                                          \
-	((t)->len <= (blen) && SUB_EQ_AT(t, body, 0) && SUB_EQ_AT(t, body, 1) && \
-	    SUB_EQ_AT(t, body, 2) && SUB_EQ_AT(t, body, 3) && SUB_EQ_AT(t, body, 4) && \
-	    SUB_EQ_AT(t, body, 5) && SUB_EQ_AT(t, body, 6) && SUB_EQ_AT(t, body, 7))
-/* "one of the current subscriptions is a prefix of the body" */
-#define SUB_ORACLE(n, t0, t1, t2, body, blen)                              \
-	(((n) > 0 && SUB_PREFIX(t0, body, blen)) || ((n) > 1 && SUB_PREFIX(t1, body, blen)) || \
-	    ((n) > 2 && SUB_PREFIX(t2, body, blen)))
+	((n) <= 3 && (ctx)->topics.ll_offset == 0 &&                           \
+	    VP_LIST3_IS(&(ctx)->topics.ll_head, (n), &(t0)->node, &(t1)->node, &(t2)->node))
 #endif
-#define SUB_PREFIX_Q(t, body, blen)                                          \
-	((t)->len <= (blen) && __CPROVER_forall { size_t vp_i; (vp_i < SUB_MAXTOPIC) ==> (vp_i >= (t)->len || ((const uint8_t *) (t)->buf)[vp_i] == ((const uint8_t *) (body))[vp_i]) })
-#define SUB_ORACLE_Q(n, t0, t1, t2, body, blen)                              \
-	(((n) > 0 && SUB_PREFIX_Q(t0, body, blen)) || ((n) > 1 && SUB_PREFIX_Q(t1, body, blen)) || \
-	    ((n) > 2 && SUB_PREFIX_Q(t2, body, blen)))
